@@ -1,6 +1,7 @@
 import ChipFiring.Theory.Txt
 import ChipFiring.Theory.TxtFile
 import ChipFiring.Theory.JsonText
+import ChipFiring.Theory.JsonDecode
 import ChipFiring.Theory.OrientRT
 import ChipFiring.Theory.Serial
 import Std.Data.String.ToInt
@@ -166,6 +167,14 @@ theorem txt_graph_file_roundtrip (names : List Txt.Str) (edges : List Txt.Edge)
   Txt.readGraph_writeGraph names edges (fun f hf => (Txt.nameOK_iff f).mp (hn f hf))
     (fun e h => ⟨(Txt.nameOK_iff _).mp (he e h).1, (Txt.nameOK_iff _).mp (he e h).2⟩)
 
+/-- … also when the file carries `\r\n` line ends (text-mode reading translates them) -/
+theorem txt_graph_file_roundtrip_crlf (names : List Txt.Str) (edges : List Txt.Edge)
+    (hn : ∀ f ∈ names, Txt.nameOK f = true)
+    (he : ∀ e ∈ edges, Txt.nameOK e.1 = true ∧ Txt.nameOK e.2.1 = true) :
+    Txt.readGraph (Txt.writeTextCRLF (Txt.writeGraph names edges)) = some (names, edges) :=
+  Txt.readGraph_writeGraph_crlf names edges (fun f hf => (Txt.nameOK_iff f).mp (hn f hf))
+    (fun e h => ⟨(Txt.nameOK_iff _).mp (he e h).1, (Txt.nameOK_iff _).mp (he e h).2⟩)
+
 /-- **TXT divisor files**: names, edges and the `(vertex, chips)` records come back, any integers -/
 theorem txt_divisor_file_roundtrip (names : List Txt.Str) (edges : List Txt.Edge) (degs : List (Txt.Str × Int))
     (hn : ∀ f ∈ names, Txt.nameOK f = true)
@@ -243,6 +252,13 @@ theorem json_truncation_open (v : JsonText.JV) (hv : JsonText.IsFileJV v) (p : J
     byte-prefix truncations follows from `json_truncation_open` -/
 theorem json_text_ascii (ind : Nat) (v : JsonText.JV) : ∀ c ∈ JsonText.dumps ind v, c.toNat < 128 :=
   JsonText.dumps_ascii ind v
+
+/-- **any string survives the JSON text**: CPython's string scanner (`py_scanstring`, strict mode:
+    plain characters, short escapes, `\uXXXX`, surrogate pairs) applied to the quoted, escaped
+    text the encoder writes for a string returns the string — vertex names of any content
+    (quotes, backslashes, control characters, non-ASCII, beyond the BMP) come back from a JSON file -/
+theorem json_string_roundtrip (s : JsonText.Str) : JsonText.decodeStr (JsonText.quote s) = some s :=
+  JsonText.decodeStr_quote s
 
 /-- non-vacuity: the file of the empty graph and its first character as a proper prefix; the
     scanner sees through escaped quotes and brackets inside names -/
